@@ -14,7 +14,7 @@ func init() {
 		Technique: "reset-completeness (field write sets) + structural invariant of the all-pairs relaxation (pivot loop outermost) + decision table of mesh FindPort against the extracted neighbour wiring",
 		Explanation: "Decides: (1) Connector.NewNetwork re-initialises every field that the topology-building methods append to or increment, so a connector reused for a second network starts from the state of a fresh one; " +
 			"(2) in the Floyd-Warshall routine the relaxation d[i][j] > d[i][k] + d[k][j] is nested with the pivot k as the outermost of its three loops (the algorithm's correctness condition), updates distance and next hop together from the [i][k] entry, and the routing tables are filled from table[switch][device].nextHop; " +
-			"(3) mesh FindPort, in every ordering of destination and own coordinates on the three axes, returns the port wired (in mesh.go) to the neighbour one step closer on an axis where they differ, and the local port iff all coordinates are equal.",
+			"(3) mesh FindPort, in every ordering of destination and own coordinates on the three axes, returns the port wired (in mesh.go) to the neighbour one step closer on an axis where they differ, and the local port iff all coordinates are equal. (router-stateless) no method of the route computer stores into the router, so nothing survives from one network to the next.",
 		NotDecided:  "shortest-path optimality on arbitrary graphs as an arithmetic fact; the bandwidth-first router.",
 		Assumptions: []string{"mesh wiring functions name the neighbour by a coordinate minus one"},
 	}, runC30)
@@ -29,7 +29,7 @@ func init() {
 	register("C35", PropertyMeta{
 		Technique: "guarded-by lock-set analysis (must-held mutex sets, interprocedural by call-site agreement) + initialise-once rule for the location dictionary",
 		Explanation: "Decides on datarecording/datarecorder.go: the batch state — tables, a table's buffered entries, the entry counter and the location dictionary — is accessed only while the writer's mutex is held, at every site outside construction (helpers are analysed with the locks all their callers hold); " +
-			"the location dictionary is created only when it is still nil (re-creating it while rows already persist would hand out duplicate IDs).",
+			"the location dictionary is created only when it is still nil (re-creating it while rows already persist would hand out duplicate IDs). (memo-initialised) a last-result memo keyed on a receiver field is not consulted before that field was ever assigned (its zero value is a legal key).",
 		NotDecided:  "SQL-level contents; exactly-once persistence of each entry (follows from the lock discipline plus the batch reset, which is not derived).",
 		Assumptions: []string{"sync.Mutex semantics"},
 	}, runC35)
@@ -42,6 +42,7 @@ func init() {
 }
 
 func runC30(c *Ctx) {
+	routerStatelessRule(c, "router-stateless")
 	// every port given to AddTile is registered with its tile and merged into it
 	if f := c.fn("tile-registration", "noc/networking/mesh", "Connector", "AddTile"); f != nil {
 		fn := c.P.SSAFunc(f)
@@ -752,6 +753,7 @@ func runC35(c *Ctx) {
 				"the location dictionary is re-created although it may already hold interned locations whose rows are persisted: IDs are then handed out again and one ID maps to two strings")
 		}
 		c.Floor("dictionary-once", 1)
+		memoInitialisedRule(c, "memo-initialised", func(pp string) bool { return pp == pkgPath("datarecording") })
 	}
 	// a column that holds Go strings must not get a declared type with NUMERIC (or INTEGER/REAL)
 	// affinity: SQLite converts numeric-looking text stored in such a column
